@@ -378,3 +378,81 @@ def ws_app_failure(c: int, kind: int, flavour: int) -> bool:
     if not why and conn.sched.errors:
         why = "exception escaped a task: %r" % (conn.sched.errors[0],)
     return done(why == "", c=c, kind=kind, flavour=flavour, why=why)
+
+
+# ------------------------------------------------------------------ the response start itself is refused and the application fails with that error
+
+_BAD_STARTS = [
+    ("pseudo header in the response headers", {"type": "http.response.start", "status": 200, "headers": [(b":status", b"200")]}),
+    ("status that is not a number", {"type": "http.response.start", "status": "abc", "headers": []}),
+    ("status 1000", {"type": "http.response.start", "status": 1000, "headers": []}),
+    ("header value with CR LF", {"type": "http.response.start", "status": 200, "headers": [(b"x-a", b"1\r\nx-b: 2")]}),
+    ("header name that is a str", {"type": "http.response.start", "status": 200, "headers": [("x-a", b"1")]}),
+]
+
+
+@harness(
+    "C05",
+    dom={"bi": (0, len(_BAD_STARTS) - 1), "h2": "bool", "flavour": (0, 1), "early": "bool"},
+    split={"bi": "each"},
+    witnesses=[{"bi": 0, "h2": False, "flavour": 0, "early": False}, {"bi": 3, "h2": True, "flavour": 1, "early": True}],
+    budget=100,
+    per_path=60,
+    bounds="an application whose http.response.start is refused (5 kinds: pseudo header, non-numeric status, status 1000, CR LF in a value, str header name) and that fails with the error it got, before or after reading the body; HTTP/1.1 and HTTP/2 (next to a healthy stream); both _handle flavours",
+    encodes=["hypercorn/protocol/http_stream.py::HTTPStream.app_send", "hypercorn/protocol/h11.py::H11Protocol.stream_send", "hypercorn/protocol/h2.py::H2Protocol.stream_send", "hypercorn/utils.py::build_and_validate_headers"],
+    stubs=["tier B runtime", "independent h11 / h2 clients"],
+)
+def refused_response_start(bi: int, h2: bool, flavour: int, early: bool) -> bool:
+    """
+    pre: DOM(refused_response_start, bi=bi, h2=h2, flavour=flavour, early=early)
+    post: _
+    """
+    enter()
+    name, msg = _BAD_STARTS[conc(bi, 0, len(_BAD_STARTS) - 1)]
+    h2 = True if h2 else False
+    early = True if early else False
+    flavour = "asyncio" if conc(flavour, 0, 1) == 0 else "trio"
+    if h2 and name == "status 1000":
+        return done(True, skipped="only h11 refuses a four-digit status; on HTTP/2 it is the application's own (ASGI does not bound the integer)")
+
+    async def app(scope, receive, send, sync_spawn=None, call_soon=None):
+        if scope["raw_path"] == b"/ok":
+            await receive()
+            await send({"type": "http.response.start", "status": 200, "headers": [(b"content-length", b"2")]})
+            await send({"type": "http.response.body", "body": b"ok", "more_body": False})
+            return
+        if not early:
+            while True:
+                m = await receive()
+                if m["type"] != "http.request" or not m.get("more_body"):
+                    break
+        await send(dict(msg))  # refused: the exception is the application's failure
+
+    conn = Conn(app, make_config(), alpn="h2" if h2 else "http/1.1", flavour=flavour)
+    why = ""
+    if h2:
+        c = H2Client()
+        c.request(1, b"POST", b"/bad", end_stream=False)
+        c.data(1, b"hello", end_stream=True)
+        c.request(3, b"GET", b"/ok", end_stream=True)
+        conn.feed(c.take())
+        for _ in range(4):
+            c.feed(conn.take())
+            conn.feed(c.take())
+        st, sib = c.streams[1], c.streams[3]
+        if c.errors:
+            why = f"client-side protocol errors {c.errors!r}"
+        elif st.status != 500 or st.ended != 1:
+            why = f"no complete 500 on the failing stream: {st!r}"
+        elif sib.status != 200 or sib.data != b"ok" or sib.ended != 1:
+            why = f"the healthy stream did not complete: {sib!r}"
+    else:
+        conn.feed(h1_request("POST", b"/bad", [HOSTH], [b"hello"], "content-length"))
+        resps, err, closed, trailing = h1_parse(conn.out.peek(), [("POST", b"/bad")], eof=conn.server_closed)
+        if err or len(resps) != 1 or resps[0].status != 500 or not resps[0].complete:
+            why = f"expected a complete 500 ({name}), got {resps!r} {err} out={conn.out.peek()[:40]!r}"
+    if not why and conn.log.count("exception") != 1:
+        why = f"error log calls: {conn.log.count('exception')} (expected 1)"
+    if not why and conn.sched.errors:
+        why = "exception escaped a task: %r" % (conn.sched.errors[0],)
+    return done(why == "", refused=name, carrier="h2" if h2 else "h1", flavour=flavour, before_reading=early, why=why)
